@@ -40,7 +40,7 @@ PRIM_ATTRS = ('send_signal', 'terminate', 'kill')
 
 
 def check(run, ctx):
-    run.each(ctx, [r1, r2, r3, r4])
+    run.each(ctx, [r1, r2, r3, r4, r5])
 
 
 def raw_signal_calls(tree_or_nodes):
@@ -408,3 +408,12 @@ def r4(run, ctx):
     run.check('R4', keys == {'m.group(1).upper()', "'SIG' + m.group(1).upper()"},
               'names are upper-cased and the SIG prefix is optional', ts, ts.node,
               'designations are not case-insensitive / the SIG prefix is mandatory')
+
+
+def r5(run, ctx):
+    from rules import c02
+    run.share(ctx, c02.r2, 'R2', 'R5', 'a kill request is not swallowed (shared with C02 R2, '
+              'the typestate of kill_process): the re-entrancy flag process.stopping is raised '
+              'only after the stop signal went out and lowered on every exit - a flag left set '
+              'makes every later kill of that worker return at once, answered ok, with no signal '
+              'sent')
